@@ -165,6 +165,17 @@ class Prop(PropBase):
             out["sort"] = pr(P.sort(axis=ax))
             out["shape"] = list(P.shape)
             out["types"] = [type(P.min(axis=ax)).__name__, type(P.sort(axis=ax)).__name__, type(P.ptp(axis=ax)).__name__]
+            # result shapes follow NumPy's reductions on a plain array of the same shape (default and keepdims=True)
+            ref = np.zeros(P.shape)
+            shp = []
+            for name in ("min", "max", "ptp"):
+                shp.append(np.shape(getattr(P, name)(axis=ax)) == np.shape(getattr(np, name)(ref, axis=ax)))
+                if ax is not None:
+                    shp.append(np.shape(getattr(P, name)(axis=ax, keepdims=True)) == np.shape(getattr(np, name)(ref, axis=ax, keepdims=True)))
+            shp.append(np.shape(P.argmin(axis=ax)) == np.shape(ref.argmin(axis=ax)) and np.shape(P.argmax(axis=ax)) == np.shape(ref.argmax(axis=ax)))
+            shp.append(np.shape(P.sort(axis=ax)) == np.shape(np.sort(ref, axis=ax)) and np.shape(P.argsort(axis=ax)) == np.shape(np.argsort(ref, axis=ax)))
+            shp.append(np.shape(P.min()) == () and np.shape(P.max()) == () and P.min() == P.ravel().min(axis=0))
+            out["shapes_ok"] = bool(all(shp))
         except Exception as e:
             out["err"] = err_name(e)
         return out
@@ -314,6 +325,8 @@ class Prop(PropBase):
         lanes = [arr.ravel()] if ax is None else [lane for lane in np.moveaxis(arr, ax, -1).reshape(-1, arr.shape[ax])]
         def val(pair):
             return F(unhx(pair[0])) + F(unhx(pair[1]))
+        if code.get("shapes_ok") is False:
+            return f"min/max/ptp/arg*/sort along axis {ax}: result shape differs from NumPy's for the same reduction"
         mins, maxs, ptps = [val(p) for p in code["min"]], [val(p) for p in code["max"]], [val(p) for p in code["ptp"]]
         for li, lane in enumerate(lanes):
             lane = list(lane)
